@@ -540,7 +540,8 @@ def run(ck):
     ck.rule = ("grammar-based near-valid ASDUs of every type id (element sizes from the standard's tables) with truncation / extension / bit flips / count changes; "
                "APDUs: any U/S control octets, I-frames with valid (harness-kept) and arbitrary sequence numbers, lengths 0..3 and 253..255, wrong start octets, cut frames, random octets; "
                "arbitrary segmentation; event floods without acknowledgement; write failures; closes in the middle of frames; FT 1.2: all function codes, addresses, broadcast, mutations of "
-               "length/checksum/start octets, random octets, clock jumps; file ASDUs of types 120..127 fuzzed in every plugin state. non-trivial = distinct (stack, callback, ASDU prefix) that reached an application callback")
+               "length/checksum/start octets, random octets, clock jumps; file ASDUs of types 120..127 fuzzed in every plugin state. non-trivial = distinct (stack, callback, ASDU prefix) that reached an application callback; "
+               "evaluations = operations (script lines: received octets, ticks, closes, API calls) executed on the real stacks, coverage.scripts = scripts")
     ck.coq("C10")
     stats = {}
     hsrv, hcli = c03.harnesses()
@@ -571,18 +572,21 @@ def run(ck):
         lines, c = gen_file(rng, stats, rng.range(10, 80))
         fscripts.append(("file%d" % i, lines)); fmeta["file%d" % i] = c
 
+    nscripts = [0]
+
     def go(stack, exe, scripts, checker):
         res = runner.run_batch(exe, scripts, timeout=3600 if not quick else 120)
         for sid, lines in scripts:
             o = res.get(sid, dict(out=[], crash=None))
-            ck.evaluations += 1
+            ck.evaluations += len(lines)        # one evaluation = one operation of a script executed on the real stack
+            nscripts[0] += 1
             if o["crash"]:
                 ck.fail("input", "crash:%s:%s" % (o["crash"]["kind"], o["crash"]["site"]), "%s: %s at %s" % (stack, o["crash"]["kind"], o["crash"]["site"]),
                         {"script": lines, "stack": stack, "stderr": o["crash"]["text"][-3000:]})
                 continue
             for code, text in (checker(sid, lines, o["out"]) if checker else [])[:3]:
                 ck.fail("input", "oracle:%s:%s" % (code, stack), text, {"script": lines, "stack": stack, "observed": o["out"][-12:]})
-            if len(ck.samples) < 5 and ck.evaluations % 97 == 1:
+            if len(ck.samples) < 5 and nscripts[0] % 97 == 1:
                 ck.sample({"stack": stack, "script": lines[:10], "trace_tail": o["out"][-4:]})
         ck.count("scripts:" + stack, len(scripts))
 
@@ -599,6 +603,7 @@ def run(ck):
     go("file-service", c20.harness(), fscripts, lambda sid, lines, out: check_file(ck, sid, lines, out, fmeta[sid]))
     for k_, v in sorted(stats.items()):
         ck.count(k_, v)
+    ck.extra["scripts"] = nscripts[0]
     ck.extra["exhaustive"] = False
     ck.extra["disagreements"] = 0
 
